@@ -58,6 +58,8 @@ def write_graph(d, nfiles, edges, ids=None, mapped=(), loc="abs",
                 if a != i:
                     continue
                 kw = {}
+                if features_restrict and (a, b) in features_restrict:
+                    kw["basin_feats"] = [FEATS[b]]
                 if (a, b) in mapped:
                     kw["basin_map"] = np.array([0, 0, 2, 3], dtype=np.uint64)
                 if remote_host is not None and (a, b) in remote_host:
@@ -76,7 +78,8 @@ def write_graph(d, nfiles, edges, ids=None, mapped=(), loc="abs",
     return paths
 
 
-def reference(nfiles, edges, ids, mapped, usable=lambda a, b: True):
+def reference(nfiles, edges, ids, mapped, usable=lambda a, b: True,
+              restrict=()):
     """offered[i] = {j: composed map} reachable through usable edges whose
     identifier rule holds; the first (shortest, lowest index) route wins for
     the value map. None means 'unconstrained'."""
@@ -117,6 +120,10 @@ def reference(nfiles, edges, ids, mapped, usable=lambda a, b: True):
                 cm = m[cmap] if False else m[np.arange(N)][cmap] \
                     if (a, b) not in mapped else m[cmap]
                 got.setdefault(b, []).append(cm)
+                if (a, b) in restrict:
+                    # the definition lists only b's own feature: nothing
+                    # stored further down may be offered through it
+                    continue
                 stack.append((b, cm, path + (b,)))
         offered.append((got, unconstrained))
     return offered
@@ -248,6 +255,35 @@ def _id_case(args):
     return cnt, out
 
 
+def _restrict_case(args):
+    """Basin definitions with an explicit feature list: the list is
+    enforced, features stored further down are not offered through it."""
+    shape, scratch = args
+    nfiles, edges = SHAPES[shape]
+    out = []
+    cnt = 0
+    for r in range(1, len(edges) + 1):
+        for rs in itertools.combinations(edges, r):
+            for mp in ((), tuple(edges)):
+                d = _mkdir(scratch, "res")
+                case = {"kind": "restrict", "shape": shape,
+                        "restrict": [list(e) for e in rs],
+                        "mapped": [list(e) for e in mp]}
+                tags = {"kind": "restrict", "mapped": bool(mp)}
+                try:
+                    paths = write_graph(d, nfiles, edges, mapped=mp,
+                                        features_restrict=set(rs))
+                    ref = reference(nfiles, edges, ["same"] * nfiles, mp,
+                                    restrict=set(rs))
+                    for i in range(nfiles):
+                        out += check_open(paths[i], i, nfiles, ref, case,
+                                          tags)
+                    cnt += 1
+                finally:
+                    shutil.rmtree(d, ignore_errors=True)
+    return cnt, out
+
+
 def _remote_case(args):
     """Remote edges through the fake host; opening through RTDC_HTTP must
     never touch local basins."""
@@ -338,6 +374,7 @@ def run(ctx):
             iitems.append((shape, [("same",) * SHAPES[shape][0]], False, loc,
                            scratch))
     res += par.pmap(_id_case, iitems)
+    res += par.pmap(_restrict_case, [(sh, scratch) for sh in SHAPES])
     res += par.pmap(_remote_case, [(v, scratch) for v in (
         "remote-chain", "http-open", "remote-unreachable")])
     viols = []
@@ -350,7 +387,8 @@ def run(ctx):
                    "2^4 / 2^9 directed graphs (self-loops included) on 2 / "
                    "3 files with matching identifiers; per shape all 4^n "
                    "identifier assignments x unmapped/mapped; relative and "
-                   "dangling locations; remote definitions and opening "
+                   "dangling locations; every non-empty subset of edges carrying an "
+                   "explicit one-feature list (enforced); remote definitions and opening "
                    "through RTDC_HTTP over the in-memory host; non-trivial "
                    "= at least one edge",
            "graphs_3_files": 512, "samples": [
@@ -373,6 +411,9 @@ def replay(case, ctx):
                    if list(p) in [list(e) for e in case["edges"]])
         _, vs = _topology_case((case["nfiles"], bits, bits + 1, ctx.scratch))
         return vs
+    if case["kind"] == "restrict":
+        _, vs = _restrict_case((case["shape"], ctx.scratch))
+        return [v for v in vs if v["case"] == case]
     if case["kind"] == "ids":
         _, vs = _id_case((case["shape"], [tuple(case["ids"])], True,
                           case["loc"], ctx.scratch))
